@@ -493,8 +493,11 @@ impl SpeedLimitTrainSim {
             .loco_con
             .force_max()?
             .min(pwr_pos_max / speed_target.min(v_max));
-        // Verify that train has sufficient power to move
-        if self.state.speed < uc::MPH * 0.1 && f_pos_max <= res_net {
+        // Verify that train has sufficient power to move, and that it is not pushed backwards within
+        // this step (the speed after the step would be negative: the model has no reverse movement)
+        if (self.state.speed < uc::MPH * 0.1 && f_pos_max <= res_net)
+            || self.state.speed + time_per_mass * (f_pos_max - res_net) < si::Velocity::ZERO
+        {
             #[cfg(feature = "logging")]
             log::debug!("{}", format_dbg!(self.path_tpc));
             bail!(
